@@ -95,6 +95,28 @@ fn c20_register_histogram_arms_forward() {
     core::mem::forget((ex, a, b));
 }
 
+//@ id: c20_register_counter_arms_forward
+//@ prop: C20
+//@ tier: quick
+//@ strength: bounded(enumerated: register_counter!(n,h) / (opts) and register_int_counter!(n,h) / (opts) with a trailing comma, concrete arguments; the TERMINAL @of_type arm -- $TYPE::with_opts + register -- is replaced by a contract stand-in that returns the type identifier and the options reaching it and is not decided)
+//@ fn: macros::register_counter, macros::register_int_counter
+//@ obligation: register_counter! reaches the terminal arm with type Counter and register_int_counter! with type IntCounter; the (name, help) arms forward exactly opts!(name, help) (no constant labels) and the (opts) arms forward the given options unchanged
+#[kani::proof]
+#[kani::unwind(14)]
+fn c20_register_counter_arms_forward() {
+    let (t1, o1): (&'static str, Opts) = register_counter!("n", "h",).unwrap();
+    assert!(t1 == "Counter", "C20.register_counter!: does not build a Counter");
+    assert!(o1.name == "n" && o1.help == "h" && o1.const_labels.len() == 0 && o1.variable_labels.len() == 0, "C20.register_counter!(name, help) does not forward opts!(name, help)");
+    let (t2, o2): (&'static str, Opts) = register_int_counter!("m", "g",).unwrap();
+    assert!(t2 == "IntCounter", "C20.register_int_counter!: does not build an IntCounter");
+    assert!(o2.name == "m" && o2.help == "g" && o2.const_labels.len() == 0 && o2.variable_labels.len() == 0, "C20.register_int_counter!(name, help) does not forward opts!(name, help)");
+    let (t3, o3): (&'static str, Opts) = register_int_counter!(Opts::new("p", "q").namespace("ns"),).unwrap();
+    assert!(t3 == "IntCounter" && o3.name == "p" && o3.help == "q" && o3.namespace == "ns", "C20.register_int_counter!(opts) does not forward the given options");
+    let (t4, o4): (&'static str, Opts) = register_counter!(Opts::new("p", "q").subsystem("ss")).unwrap();
+    assert!(t4 == "Counter" && o4.name == "p" && o4.help == "q" && o4.subsystem == "ss", "C20.register_counter!(opts) does not forward the given options");
+    core::mem::forget((o1, o2, o3, o4));
+}
+
 // (tier off, measured: expanding a registration arm -- Counter::with_opts + Registry::register on the
 // real GenericCounter collector + unregister -- runs out of memory / time under CBMC (586 s crash,
 // 1337 s); the registration arms of C20 are therefore NOT decided)
